@@ -36,6 +36,7 @@ type SPConfig struct {
 	Name string
 
 	IdPSSOURL, IdPSLOURL, IdPIssuer string
+	IdPSSOBinding, IdPSLOBinding    string
 	ACS, SLO, SPIssuer, Audience    string
 
 	SignRequests bool
@@ -93,6 +94,8 @@ func NewSPNode(cfg *SPConfig, simNow func() time.Time) (*SPNode, error) {
 		IdentityProviderSSOURL:         cfg.IdPSSOURL,
 		IdentityProviderSLOURL:         cfg.IdPSLOURL,
 		IdentityProviderIssuer:         cfg.IdPIssuer,
+		IdentityProviderSSOBinding:     cfg.IdPSSOBinding,
+		IdentityProviderSLOBinding:     cfg.IdPSLOBinding,
 		AssertionConsumerServiceURL:    cfg.ACS,
 		ServiceProviderSLOURL:          cfg.SLO,
 		ServiceProviderIssuer:          cfg.SPIssuer,
